@@ -196,7 +196,7 @@ Definition step_cached (i : input) (cd : nsT) : cached_step :=
   match cps with
   | [] => {| cs_cd := cd; cs_names := []; cs_additional := []; cs_store := i_store i |}
   | _ =>
-      let cd1 := fold_left (fun m kf => delitemS (fst kf) m) cps cd in
+      let cd1 := fold_left (fun m f => delitemS f m) (map fst cps) cd in
       let orig := lookupS "__getattr__" cd1 in
       {| cs_cd := setitemS "__getattr__" (ID_SYNTH_GETATTR, KFunc [i_fresh i]) cd1;
          cs_names := map fst cps;
@@ -235,10 +235,20 @@ Definition rewrite_cells (old new : nat) (cells : list nat) (st : store) : store
 Definition rewrite_all (old new : nat) (items : list (list nat)) (st : store) : store :=
   fold_left (fun s cells => rewrite_cells old new cells s) items st.
 
+(** Where an argument of [type(self._cls)(self._cls.__name__, self._cls.__bases__, cd)] comes
+    from: read off the original class, or something else. *)
+Inductive origin := OfOriginal | Other.
+
 Record output := {
+  o_meta : origin;                   (* the callable: type(self._cls) *)
+  o_name : origin;                   (* self._cls.__name__ *)
+  o_bases : origin;                  (* self._cls.__bases__ *)
   o_cd : nsT;                        (* the dict handed to type() *)
   o_ns : nsT;                        (* cls.__dict__ of the new class *)
   o_slots : list name;               (* cd["__slots__"] *)
+  o_existing : slot_map;             (* existing_slots *)
+  o_items : list (list nat);         (* closure cells of every item the rewrite loop visits, in order *)
+  o_store0 : store;                  (* cells when the loop starts *)
   o_store : store;                   (* cells after the rewrite loop *)
   o_cached : list name;              (* keys of cached_properties *)
   o_user_getattr : bool              (* original_getattr is not None *)
@@ -262,12 +272,35 @@ Definition create_slots_class (i : input) : result :=
                    (setitemS "__slots__" (ID_SLOTS, KPlain) cd2) in
       let ns := py_type cd3 slots in
       let items := map (fun kv => inspected_cells (e_kind (snd kv))) ns ++ cs_additional cs in
-      ROk {| o_cd := cd3; o_ns := ns; o_slots := slots;
+      ROk {| o_meta := OfOriginal; o_name := OfOriginal; o_bases := OfOriginal;
+             o_cd := cd3; o_ns := ns; o_slots := slots; o_existing := existing;
+             o_items := items; o_store0 := cs_store cs;
              o_store := rewrite_all (i_old i) (i_new i) items (cs_store cs);
              o_cached := cs_names cs;
              o_user_getattr := match lookupS "__getattr__" (step_filter i) with
                                | Some _ => true | None => false end |}
   end.
+
+(** What the new class answers for [__name__], [__qualname__], [__module__], [__doc__],
+    [__bases__], [type(cls)] compared with the original: [type()] takes the qualified name
+    from [cd["__qualname__"]] (else it is the bare name), module and docstring from
+    [cd["__module__"]] / [cd["__doc__"]]. *)
+Definition is_original (x : origin) : bool := match x with OfOriginal => true | Other => false end.
+
+Definition same_entry (k : name) (a c : nsT) : bool :=
+  match lookupS k a, lookupS k c with
+  | Some x, Some y => Nat.eqb (e_id x) (e_id y)
+  | None, None => true
+  | _, _ => false
+  end.
+
+Definition header_same (i : input) (o : output) : list bool :=
+  [ is_original (o_name o);
+    match lookupS "__qualname__" (o_cd o) with Some e => Nat.eqb (e_id e) ID_QUALNAME | None => false end;
+    same_entry "__module__" (i_ns i) (o_cd o);
+    same_entry "__doc__" (i_ns i) (o_cd o);
+    is_original (o_bases o);
+    is_original (o_meta o) ].
 
 (** ** [build_class]: the [__attrs_init_subclass__] call.
     [getattr(cls, "__attrs_init_subclass__", None) and "__attrs_init_subclass__" not in
